@@ -203,9 +203,14 @@ def run(chk):
     for k in sorted(bad):
         impl, pos, exp, got = bad[k]
         c = cases[k]
-        detail, feats = classify(c, impl, pos, exp, got)
-        sig = "C01:%s:expected-%s-got-%s%s:%s" % (impl, exp, got, ("(" + detail + ")") if detail else "",
-                                                   "+".join(feats) or "-")
+        tr0 = [t for t in c["traces"] if t["impl"] == impl][0]["events"]
+        ev0 = tr0[pos - 1] if pos - 1 < len(tr0) else ["<none>"]
+        if ev0[0] in ("exc", "setup-exc"):
+            import re
+            msg = re.sub(r"'[^']*'", "'_'", str(ev0[2]) if len(ev0) > 2 else "")
+            sig = "C01:%s:%s(%s):%s" % (impl, ev0[0], ev0[1], msg[:60])
+        else:
+            sig = "C01:%s:event-mismatch:expected-%s-got-%s" % (impl, exp, got)
         text = " | ".join("%s: %s" % (ph["name"], progs.show_prog(ph["calls"])) for ph in c["src"]["phases"])
         tr = [t for t in c["traces"] if t["impl"] == impl][0]["events"]
         chk.violation(sig, "%s: event %d should be %s but is %s for [%s] input %s bound %s"
